@@ -151,15 +151,28 @@ def _insitu(ev, viol, stats):
             cands.append((H(salt), H(ikm)))
     want = new["view"]
     hit = None
+    hit_salt = None
     for salt, ikm in cands:
         ks = kdfref.key_schedule_epoch(suite, salt, ikm, ctx_new, psk_secret)
         if ks["init_secret"].hex() == want["init"]:
             hit = ks
+            hit_salt = salt
             break
     if hit is None:
         bad("no_recorded_commit_secret_reproduces_the_epoch",
             f"{len(cands)} candidate (init, commit secret) pairs, {len(psks)} PSKs; member init {want['init']}")
         return
+    # external commit: the init secret the epoch was derived from is the HPKE export of RFC 9420
+    # section 8.3, recomputed here with an independent X25519 / HPKE key schedule (suites 1 and 3)
+    if ev["external"]:
+        kem_outputs = [p["proposal"]["kem_output"] for p in pm["content"]["commit"]["proposals"]
+                       if p.get("type") == 1 and p["proposal"].get("proposal_type") == tls.PROPOSAL_EXTERNAL_INIT]
+        ref_init = kdfref.external_init_secret(suite, H(prev["external"]), kem_outputs[0]) if kem_outputs else None
+        if ref_init is not None:
+            stats["insitu_values"] += 1
+            stats["insitu_external_init_checked"] += 1
+            if ref_init != hit_salt:
+                bad("external_init_secret", f"reference {ref_init.hex()} library {hit_salt.hex()}")
     pairs = [("exporter", "exporter_secret"), ("authentication", "epoch_authenticator"), ("external", "external_secret"),
              ("membership", "membership_key"), ("sender_data", "sender_data_secret"), ("resumption", "resumption_psk")]
     for v in ev["views"]:
